@@ -34,6 +34,9 @@ CONSTANTS MaxBlock,      \* block sizes 1..MaxBlock
           Takes,         \* run elements: 0 = reads its whole flow, t = stops after t values
           SplitBufs,     \* sequence of Split bufsizes around the adapter
           Srcs,          \* how the flow is handed to run: "iter" an iterator, "list" / "tuple" a re-iterable container
+          Rets,          \* kind of iterable the element's request / compute hands out: "gen" a generator evaluated when
+                         \* read, "fresh" a new list, "tuple", "own" the element's own list that it keeps mutating
+                         \* (rewritten by every fill, emptied by reset), "iter" an iterator over that list
           Variant
 
 SplitBufsQuick == <<1, 2, 3, 4, 5, 1000, None>>
@@ -44,18 +47,25 @@ VARIABLES cfg, drv, N, src,
                                        \* (None, 0, "", (), [], False, StopIteration, nan) instead of an ordinary one
           s, k, outs, h, since,        \* fill/request driver
           pos, rel, out, phase,        \* run driver
-          act                          \* name of the action taken last (vacuity census)
-vars == <<cfg, drv, N, src, odd, s, k, outs, h, since, pos, rel, out, phase, act>>
+          act,                         \* name of the action taken last (vacuity census)
+          live                         \* Variant "nocopy" only: the output buffer IS the container handed out by the element
+vars == <<cfg, drv, N, src, odd, s, k, outs, h, since, pos, rel, out, phase, act, live>>
 
-Cfgs == {[n |-> n, bufIn |-> b, reset |-> r, yor |-> y, kind |-> kd, m |-> m, pv |-> pv, take |-> tk] :
+\* results per request of the elements with a container kind other than a generator
+RetM == CHOOSE m \in Ms \ {9} : \A m2 \in Ms \ {9} : m2 <= m
+
+Cfgs == {[n |-> n, bufIn |-> b, reset |-> r, yor |-> y, kind |-> kd, m |-> m, pv |-> pv, take |-> tk, ret |-> rt] :
            n \in 1..MaxBlock, b \in BOOLEAN, r \in BOOLEAN, y \in BOOLEAN,
-           kd \in {"fc", "fr", "run", "both", "frc"}, m \in Ms, pv \in BOOLEAN, tk \in Takes}
+           kd \in {"fc", "fr", "run", "both", "frc"}, m \in Ms, pv \in BOOLEAN, tk \in Takes, rt \in Rets}
 
 Init == /\ drv \in {"free", "run"} /\ cfg \in Cfgs
         /\ cfg.pv => (cfg.kind = "run" /\ drv = "run")
         /\ cfg.take > 0 => (cfg.kind = "run" /\ drv = "run" /\ cfg.take < cfg.n)
         /\ drv = "free" => cfg.kind # "run"
         /\ cfg.kind \in {"both", "frc"} => cfg.m = 1
+        \* the container kinds other than a generator: fill/request and fill/compute elements under free schedules
+        /\ cfg.ret # "gen" => (drv = "free" /\ cfg.kind \in {"fr", "fc"} /\ ~cfg.yor /\ cfg.m = RetM)
+        /\ live = FALSE
         /\ src \in (IF drv = "run" THEN Srcs ELSE {"iter"})
         /\ N \in (IF drv = "run" THEN 0..MaxLen ELSE {0})
         \* every position relative to the block boundaries: first / middle / last of a block, first of the flow, first
@@ -95,6 +105,19 @@ LegacyFill(c, st, v) ==
             ELSE [r.s EXCEPT !.el = Append(@, v), !.c = @ + 1, !.fills = Append(@, v)]
   ELSE [st EXCEPT !.el = Append(@, v), !.c = @ + 1, !.fills = Append(@, v)]
 
+(***************************************************************************)
+(* Container kinds.  The intended adapter takes the VALUES out of whatever *)
+(* the element hands out at the moment of the element request (FillStep /  *)
+(* RequestStep do not mention cfg.ret): results already taken are          *)
+(* independent of what the element does to its containers afterwards.      *)
+(* Variant "nocopy" (TLC must reject it): with buffer_output a ready list  *)
+(* handed out into an empty output buffer becomes the buffer; if it is the *)
+(* element's own list, reading the buffer later shows what that list shows *)
+(* then (LiveView: rewritten by every fill, emptied by reset).             *)
+(***************************************************************************)
+LiveView(c, e) == IF e = <<>> THEN <<>> ELSE Res(c, e)
+BecomesLive == Variant = "nocopy" /\ FillKind(cfg, s) = "out" /\ s.bout = <<>> /\ cfg.ret = "own"
+
 DoFill(v) == IF Variant = "legacy" THEN LegacyFill(cfg, s, v) ELSE FillStep(cfg, s, v)
 DoRequest == IF Variant = "legacy" THEN LegacyRequest(cfg, s) ELSE RequestStep(cfg, s)
 
@@ -106,21 +129,24 @@ CanCall == drv = "free" /\ Len(h) < MaxOps /\ ~s.hung
 FillCall == /\ CanCall
             /\ s' = DoFill(k) /\ k' = k + 1 /\ since' = since + 1
             /\ h' = Append(h, [op |-> "f", res |-> <<>>, nf |-> Len(s'.fills), hung |-> s'.hung])
+            /\ live' = (live \/ BecomesLive)
             /\ UNCHANGED <<cfg, drv, N, src, odd, outs>> /\ RunFixed
 FillPlain == /\ FillKind(cfg, s) = "plain" /\ FillCall /\ act' = "FillPlain"
 FillBufferIn == /\ FillKind(cfg, s) = "in" /\ FillCall /\ act' = "FillBufferIn"
 FillBufferOut == /\ FillKind(cfg, s) = "out" /\ FillCall /\ act' = "FillBufferOut"
 Request == /\ act' = "Request" /\ CanCall
-           /\ LET r == DoRequest IN
+           /\ LET r0 == DoRequest
+                  r == IF live THEN [r0 EXCEPT !.res = LiveView(cfg, s.el) \o SubSeq(@, Len(s.bout) + 1, Len(@))] ELSE r0
+              IN
               /\ s' = r.s /\ outs' = outs \o r.res
               /\ h' = Append(h, [op |-> "r", res |-> r.res, nf |-> Len(r.s.fills), hung |-> FALSE])
-           /\ since' = 0
+           /\ since' = 0 /\ live' = FALSE
            /\ UNCHANGED <<cfg, drv, N, src, odd, k>> /\ RunFixed
 
 (***************************************************************************)
 (* run driver.                                                             *)
 (***************************************************************************)
-FreeFixed == UNCHANGED <<s, k, outs, h, since>>
+FreeFixed == UNCHANGED <<s, k, outs, h, since, live>>
 Blk(a, len) == [j \in 1..len |-> a + j - 1]
 RunBlock == /\ act' = "RunBlock" /\ drv = "run" /\ phase = "loop" /\ N - pos >= cfg.n
             /\ LET blk == Taken(cfg, Blk(pos, cfg.n)) IN
@@ -172,6 +198,11 @@ ConcatEqRun == (Free /\ ~cfg.yor) =>
    /\ IsPrefix(outs, RunSem(cfg, Filled))
    /\ LastIsRequest => outs = RunSem(cfg, Filled)
    /\ outs \o RequestStep(cfg, s).res = RunSem(cfg, Filled)
+\* ... and this whatever kind of iterable the element hands out and whatever it does to it later: RunSem does not
+\* depend on cfg.ret, results taken out of the element are values, not the element's container
+RetIndependent == (Free /\ ~cfg.yor) =>
+   /\ outs \o RequestStep(cfg, s).res = RunSem([cfg EXCEPT !.ret = "gen"], Filled)
+   /\ ~live
 \* with yield_on_remainder a request also yields the unfinished block and starts a new one
 YorFlushes == (Free /\ cfg.yor /\ LastIsRequest) => s.c = 0
 \* a request leaves nothing buffered and less than a block in the element
